@@ -41,20 +41,20 @@ def run(c):
     # --- guard table of validate_header
     c.r2("ctx-rules", VH, cond=r"^discr\(pipe::validate_header_ctx\(arg0, arg1\)\)$", fail_on=True, desc="validate_header applies the context (denylist) rules") if False else \
         c.r1("ctx-rules", VH, P + "validate_header_ctx", via=2)
-    c.r1("prev-header", VH, P + "prev_header_store", via=2, desc="validate_header: the previous header must be known (orphan otherwise)")
-    c.r2("height", VH, ops={"Ne"}, lhs=["arg0.height"], rhs=["re:^call:pipe::prev_header_store$", "op:AddWithOverflow", "const:1", "re:\\.height$"], err="InvalidBlockHeight")
+    c.r1("prev-header", VH, "re:store::Batch::get_previous_header$", via=2, desc="validate_header: the previous header must be known (orphan otherwise)")
+    c.r2("height", VH, ops={"Ne"}, lhs=["arg0.height"], rhs=["re:^call:(pipe::prev_header_store|Batch::get_previous_header)$", "op:AddWithOverflow", "const:1", "re:\\.height$"], err="InvalidBlockHeight")
     c.r2("version", VH, cond=r"^consensus::valid_header_version\(arg0\.height, arg0\.version\)$", fail_on=False, err="InvalidBlockVersion")
-    c.r2("timestamp", VH, ops={"Le"}, lhs=["arg0.timestamp"], rhs=["re:^call:pipe::prev_header_store$", "re:\\.timestamp$"], err="InvalidBlockTime")
+    c.r2("timestamp", VH, ops={"Le"}, lhs=["arg0.timestamp"], rhs=["re:^call:(pipe::prev_header_store|Batch::get_previous_header)$", "re:\\.timestamp$"], err="InvalidBlockTime")
     c.r2("mmr-outputs", VH, ops={"Eq"}, lhs=["call:BlockHeader::output_mmr_count", "call:num::saturating_sub", "arg0"], rhs=["const:0"], err="InvalidMMRSize")
     c.r2("mmr-kernels", VH, ops={"Eq"}, lhs=["call:BlockHeader::kernel_mmr_count", "call:num::saturating_sub", "arg0"], rhs=["const:0"], err="InvalidMMRSize")
     c.r2("weight", VH, ops={"Gt"}, lhs=["call:TransactionBody::weight_by_iok"], rhs=["call:global::max_block_weight"], err="TooHeavy")
     c.r1("pow", VH, P + "validate_pow_only", via=2, extra_cuts=c.true_edges(VH, SKIP[0]), desc="validate_header: ok => validate_pow_only, only bypass SKIP_POW")
-    c.r2("total-difficulty-increases", VH, ops={"Le"}, lhs=["call:BlockHeader::total_difficulty", "arg0"], rhs=["call:BlockHeader::total_difficulty", "re:^call:pipe::prev_header_store$"],
+    c.r2("total-difficulty-increases", VH, ops={"Le"}, lhs=["call:BlockHeader::total_difficulty", "arg0"], rhs=["call:BlockHeader::total_difficulty", "re:^call:(pipe::prev_header_store|Batch::get_previous_header)$"],
          err="DifficultyTooLow", bypass=[SKIP])
     c.r2("pow-reaches-target", VH, ops={"Lt"}, lhs=["call:ProofOfWork::to_difficulty", "arg0.pow", "arg0.height"], rhs=["call:Sub::sub", "call:BlockHeader::total_difficulty"],
          err="DifficultyTooLow", bypass=[SKIP])
     c.r2("network-difficulty", VH, ops={"Ne"}, lhs=["call:Sub::sub", "call:BlockHeader::total_difficulty"],
-         rhs=["call:consensus::next_difficulty", "arg0.height", "call:DifficultyIter::from_batch", "call:Hashed::hash", "re:^call:pipe::prev_header_store$", "re:\\.difficulty$"],
+         rhs=["call:consensus::next_difficulty", "arg0.height", "call:DifficultyIter::from_batch", "call:Hashed::hash", "re:^call:(pipe::prev_header_store|Batch::get_previous_header)$", "re:\\.difficulty$"],
          err="WrongTotalDifficulty", bypass=[SKIP])
     c.r2("secondary-scaling", VH, ops={"Ne"}, lhs=["arg0.pow.secondary_scaling"], rhs=["call:consensus::next_difficulty", "re:\\.secondary_scaling$"], err="InvalidScaling",
          bypass=[SKIP, (r"^PartialOrd::lt\(arg0\.version, ", "false")])
